@@ -41,7 +41,10 @@ RULE = ("A: every index of every (n,k), n <= Nexh, k <= min(n,5) (plus k = n for
         "reused over 2-4 rounds with different n_thetas (growing and shrinking; budget covering all rounds / some / none), triples observed per kernel invocation; "
         "hardening classes: every argument a temporary (identity-keyed memo), one scorer + another generator, instalments, n_thetas 127..257 and budgets "
         "4999/5001/C/C+1/20000 around the default 5000 through kernel, both wrappers and the scorer. Oracles fire only for k <= 4 and for the stated clauses "
-        "(in range, distinct, all when covered); k > 4, invalid arguments, the number of sub-sampled triples, unranked index range and rng.choice population are ties. Non-trivial: k >= 2 and C(n,k) >= 3.")
+        "(in range, distinct, all when covered); item 18: the call site through calculate_scores.main() with --scorer-param max_triples/max_chunk (budgets below / at / "
+        "above C(n,3), n_thetas 34/36 above the default budget, 300 sub-sampled), triples observed per kernel invocation, received options as a tie; item 19: "
+        "slices of every stream (exhaustive n = 5, 7, max; every 6th sampled (n,k); every 10th boundary; every 5th call-site / 4th reuse / 3rd class / 3rd black-box case; "
+        "a third of the CLI cases with --verbose) under verbose logging, cases carry verbose=true; k > 4, invalid arguments, the number of sub-sampled triples, unranked index range and rng.choice population are ties. Non-trivial: k >= 2 and C(n,k) >= 3.")
 
 
 def rank(c):
@@ -90,6 +93,37 @@ def call(fn, index, n, k):
         return "err:" + type(e).__name__
 
 
+VERB = [False]
+
+
+def mk(case):
+    """case dicts created while a verbose slice is active carry "verbose": True, so that `replay` re-enters that configuration"""
+    if VERB[0]:
+        case["verbose"] = True
+    return case
+
+
+class verbose_slice:
+    """HARDENING item 19: run a slice of a stream with the `batchie` logger at DEBUG and a formatting sink (vlib.common.verbose_logging)"""
+
+    def __init__(self, flag):
+        self.flag = bool(flag)
+
+    def __enter__(self):
+        self.old = VERB[0]
+        if self.flag:
+            VERB[0] = True
+            self.cm = common.verbose_logging()
+            self.cm.__enter__()
+        return self
+
+    def __exit__(self, *exc):
+        if self.flag:
+            self.cm.__exit__(*exc)
+            VERB[0] = self.old
+        return False
+
+
 KMAX = 4     # the property's quantifier: all n >= 0, all 0 <= k <= 4 (larger k is compared with the model only)
 
 
@@ -109,7 +143,7 @@ class _Quantified:
 def oracle_point(res, fn, index, n, k, as_numpy, want_successor=True):
     """evaluate the oracles at one index (and its successor); returns the implementation's output"""
     arg = np.int64(index) if as_numpy else index
-    case = {"kind": "point", "index": int(index), "n": n, "k": k, "numpy_index": bool(as_numpy)}
+    case = mk({"kind": "point", "index": int(index), "n": n, "k": k, "numpy_index": bool(as_numpy)})
     out = call(fn, arg, n, k)
     res.evaluations += 1
     q = _Quantified(res, k)
@@ -140,7 +174,7 @@ def oracle_point(res, fn, index, n, k, as_numpy, want_successor=True):
 
 def exhaustive(res, fn, n, k, lines, expect, meta):
     total = math.comb(n, k)
-    case = {"kind": "exhaustive", "n": n, "k": k}
+    case = mk({"kind": "exhaustive", "n": n, "k": k})
     q = _Quantified(res, k)
     outs = []
     for idx in range(total):
@@ -257,7 +291,7 @@ class RecGen(np.random.Generator):
 def callsite_case(res, gd, n_thetas, max_combos, seed, adversarial=False, tie=None):
     """run the production kernel and observe the triples it REALLY uses: the index arrays its three input arrays are read
     with (whatever produced them -- the python loop over get_combination_at_sorted_index or any replacement)"""
-    case = {"kind": "callsite", "n_thetas": n_thetas, "max_combos": max_combos, "seed": seed, "adversarial": bool(adversarial)}
+    case = mk({"kind": "callsite", "n_thetas": n_thetas, "max_combos": max_combos, "seed": seed, "adversarial": bool(adversarial)})
     nprng = np.random.default_rng(seed)
     n_plates, E = (2, 3) if n_thetas <= 64 else (1, 1)
     log_p, log_v, log_d = [], [], []
@@ -441,7 +475,7 @@ def scorer_reuse_case(res, gd, ns, max_triples, max_chunk, seed):
     distance matrices, plates), as an in-process active-learning loop does.  In every round and every kernel invocation of that
     round the triples actually gathered must be min(C(n,3), max_triples) pairwise distinct in-range triples of THAT round's n,
     and all C(n,3) of them when the budget covers them."""
-    case = {"kind": "reuse", "ns": list(ns), "max_triples": max_triples, "max_chunk": max_chunk, "seed": seed}
+    case = mk({"kind": "reuse", "ns": list(ns), "max_triples": max_triples, "max_chunk": max_chunk, "seed": seed})
     g = np.random.default_rng(seed)
     scorer = gd.GaussianDBALScorer(max_chunk=max_chunk, max_triples=max_triples)
     rng = RecGen(seed, adversarial=True)
@@ -604,7 +638,7 @@ def entry_call(gd, entry, n, budget, rng, g, scorer=None):
 
 def classes_case(res, gd, cls, params, seed):
     """hardening classes 10-13 on the call-site stream; every failing case is replayable from (cls, params, seed)"""
-    case = {"kind": "class", "class": cls, "params": params, "seed": seed}
+    case = mk({"kind": "class", "class": cls, "params": params, "seed": seed})
     g = np.random.default_rng(seed)
     try:
         with observed_kernel(gd) as pc:
@@ -671,11 +705,47 @@ def classes_case(res, gd, cls, params, seed):
     res.nontrivial.add(("class", cls, repr(sorted(params.items()))))
 
 
+def cli_case(res, case):
+    """HARDENING item 18: the kernel's call site reached through the real `batchie.cli.calculate_scores.main()` with the scorer's budget and
+    batch size given as `--scorer-param max_triples=.. / max_chunk=..` (real h5 files; thetas and distances split over two files).  Concrete
+    oracles: the triples every kernel invocation really gathered are in range, pairwise distinct and all C(n,3) when the budget given on the
+    command line covers them.  What scorer and kernel RECEIVE (max_triples, max_chunk, max_combos, generator, n_thetas) and the number of
+    sub-sampled triples are ties."""
+    from harness import dbal_cli as dc
+    n, budget, mc = case["n"], case["budget"], case["max_chunk"]
+    rec = dc.run_cli(case["subseed"], n, budget, mc, case["seed"], verbose=case.get("verbose", False), split_files=case.get("split", True),
+                     n_chunks=case.get("n_chunks", 1), chunk_index=case.get("chunk_index", 0), many_rows=n > 64)
+    res.evaluations += 1
+    if "error" in rec:
+        res.fail("calculate_scores.main() raises on valid input", case, rec["error"], "a scores file", signature="C15:entry-point-raises")
+        return None
+    used = []
+    for c_ in rec["score_calls"]:
+        for inv, k in enumerate(c_["kernel"]):
+            t = check_used(res, case, k["logs"], n, budget, "entry-point", {"kernel_call": inv, "kernel_received_max_combos": str(k["max_combos"]),
+                                                                            "scorer_received": c_["attrs"]})
+            if t is None:
+                return None
+            used.append(sorted(t))
+    got = {"init": [{k_: i[k_] for k_ in ("max_chunk", "max_triples", "types")} for i in rec["init"]],
+           "kernel_max_combos": sorted(set(str(k["max_combos"]) for c_ in rec["score_calls"] for k in c_["kernel"])),
+           "kernel_same_rng": all(k["same_rng"] for c_ in rec["score_calls"] for k in c_["kernel"]),
+           "n_thetas": sorted(set(c_["n_thetas"] for c_ in rec["score_calls"]))}
+    want = {"init": [{"max_chunk": mc, "max_triples": budget, "types": ["int", "int"]}], "kernel_max_combos": [str(budget)] if used else [],
+            "kernel_same_rng": True, "n_thetas": [n] if rec["score_calls"] else []}
+    if got != want:
+        res.disagree("C15:entry-point-received", case, {k_: got[k_] for k_ in want if got[k_] != want[k_]}, {k_: want[k_] for k_ in want if got[k_] != want[k_]})
+    res.count("class.entry-point.calculate_scores")
+    res.nontrivial.add(("cli", n, budget, mc))
+    res.traces_validated += 1
+    return used
+
+
 def blackbox_case(res, gd, n_thetas, max_combos, seed):
     """no instrumentation at all: with all distances 1, all means 0, all variances 1 and E experiments every triple of
     three DIFFERENT samples weighs 3 * 3^(-E/2), a 'triple' with a repeated sample weighs 2 * ... or 0: the score must be
     log(3 K) - E/2 log 3 with K = min(C(n,3), max_combos)"""
-    case = {"kind": "blackbox", "n_thetas": n_thetas, "max_combos": max_combos, "seed": seed}
+    case = mk({"kind": "blackbox", "n_thetas": n_thetas, "max_combos": max_combos, "seed": seed})
     E = 2
     d = np.ones((n_thetas, n_thetas)) - np.eye(n_thetas)
     try:
@@ -709,7 +779,10 @@ def run(ctx, res):
         if n <= 8:
             ks = list(range(0, n + 1))
         for k in ks:
-            exhaustive(res, fn, n, k, lines, expect, meta)
+            with verbose_slice(n in (5, 7, nexh)):
+                exhaustive(res, fn, n, k, lines, expect, meta)
+            if n in (5, 7, nexh):
+                res.count("class.verbose-logging")
             if k >= 2 and math.comb(n, k) >= 3:
                 res.nontrivial.add(("exh", n, k))
             res.count("exhaustive.pairs")
@@ -734,7 +807,10 @@ def run(ctx, res):
                 continue
         for idx in sample_indices(rng, n, k, per):
             as_np = (idx + 1 < 2 ** 62) and rng.random() < 0.5
-            out = oracle_point(res, fn, idx, n, k, as_np)
+            with verbose_slice(guard % 6 == 1):
+                out = oracle_point(res, fn, idx, n, k, as_np)
+            if guard % 6 == 1:
+                res.count("class.verbose-logging")
             lines.append("unrank %d %d %d" % (idx, n, k))
             expect.append(out if isinstance(out, str) else show(out))
             meta.append(("sampled", idx, n, k))
@@ -753,7 +829,10 @@ def run(ctx, res):
         b = math.comb(m, 3)
         for idx in (b - 1, b):
             if 0 <= idx < math.comb(nb, 3):
-                out = oracle_point(res, fn, idx, nb, 3, False, want_successor=(idx == b - 1))
+                with verbose_slice(m % 10 == 0):
+                    out = oracle_point(res, fn, idx, nb, 3, False, want_successor=(idx == b - 1))
+                if m % 10 == 0:
+                    res.count("class.verbose-logging")
                 lines.append("unrank %d %d %d" % (idx, nb, 3))
                 expect.append(out if isinstance(out, str) else show(out))
                 meta.append(("boundary", idx, nb, 3))
@@ -793,11 +872,17 @@ def run(ctx, res):
         n = int(round(math.exp(crng.uniform(math.log(60), math.log(3000)))))
         big.append((n, crng.randint(50, max(60, 200000 // n))))
     for i, (n, mc) in enumerate(cs + big):
-        callsite_case(res, gd, n, mc, crng.randrange(2 ** 31), adversarial=(i % 3 == 2) or n > 64, tie=cs_tie)
+        with verbose_slice(i % 5 == 1 or n in (257, 2400)):
+            callsite_case(res, gd, n, mc, crng.randrange(2 ** 31), adversarial=(i % 3 == 2) or n > 64, tie=cs_tie)
+        if i % 5 == 1:
+            res.count("class.verbose-logging")
         if len(res.oracle_failures) >= 20:
             break
-    for (n, mc) in [(3, 1), (3, 5000), (4, 4), (5, 7), (10, 120), (10, 5000), (12, 100), (33, 5000), (40, 5000), (200, 5000), (1500, 2000)]:
-        blackbox_case(res, gd, n, mc, crng.randrange(2 ** 31))
+    for bi, (n, mc) in enumerate([(3, 1), (3, 5000), (4, 4), (5, 7), (10, 120), (10, 5000), (12, 100), (33, 5000), (40, 5000), (200, 5000), (1500, 2000)]):
+        with verbose_slice(bi % 3 == 1):
+            blackbox_case(res, gd, n, mc, crng.randrange(2 ** 31))
+        if bi % 3 == 1:
+            res.count("class.verbose-logging")
     # one scorer object over rounds with changing numbers of posterior samples (exhaustive budget for all rounds, for some, for none)
     reuse = [((4, 7, 5), 5000, 50), ((7, 4), 5000, 2), ((5, 9, 3, 9), 84, 1), ((9, 5), 84, 50), ((6, 8), 20, 2), ((8, 6), 20, 1),
              ((12, 30, 10), 100, 3), ((30, 12), 100, 50), ((3, 4), 5000, 50), ((4, 3), 1, 1), ((40, 60, 25), 5000, 50), ((300, 200, 400), 500, 2)]
@@ -807,8 +892,34 @@ def run(ctx, res):
         cmax = max(math.comb(x, 3) for x in ns)
         cmin = min(math.comb(x, 3) for x in ns)
         reuse.append((ns, crng.choice([5000, cmax, cmax + 1, cmin, max(1, cmin - 1), crng.randint(1, cmax)]), crng.choice([1, 2, 3, 50])))
-    for (ns, mt, mc) in reuse:
-        scorer_reuse_case(res, gd, ns, mt, mc, crng.randrange(2 ** 31))
+    for ri, (ns, mt, mc) in enumerate(reuse):
+        with verbose_slice(ri % 4 == 0):
+            scorer_reuse_case(res, gd, ns, mt, mc, crng.randrange(2 ** 31))
+        if ri % 4 == 0:
+            res.count("class.verbose-logging")
+        if len(res.oracle_failures) >= 20:
+            break
+    # item 18: the call site through the real entry point; item 19: a third of them with --verbose (same triples as the quiet run)
+    kseeds = ctx.subrng("cli")
+    C34 = math.comb(34, 3)
+    cli_cfg = [(6, 20, 2, 0), (8, 10, 50, 3), (5, 5000, 1, 0), (34, C34, 50, 7), (36, 6000, 2, 0), (300, 200, 50, 1), (4, 3, 1, 0), (3, 1, 50, 5),
+               (34, 20000, 3, 0), (9, 84, 2, 2), (9, 85, 2, 0), (9, 83, 50, 4)]
+    for _ in range(ctx.scale(0, 15, 8)):
+        nn = kseeds.choice([3, 4, 5, 6, 7, 9, 12])
+        tt = math.comb(nn, 3)
+        cli_cfg.append((nn, kseeds.choice([tt, tt + 1, max(1, tt - 1), max(1, tt // 2), 5000, 1]), kseeds.choice([1, 2, 3, 50]), kseeds.choice([0, 1, 99])))
+    for ci_, (nn, bud, mc_, sd_) in enumerate(cli_cfg):
+        case = {"kind": "cli", "subseed": kseeds.randrange(2 ** 48), "n": nn, "budget": bud, "max_chunk": mc_, "seed": sd_, "split": ci_ % 3 != 1,
+                "n_chunks": 2 if ci_ % 4 == 3 else 1, "chunk_index": 1 if ci_ % 8 == 3 else 0, "verbose": False}
+        used = cli_case(res, case)
+        if used is not None and (ci_ % 3 == 0 or nn >= 34):
+            vcase = dict(case, verbose=True)
+            vused = cli_case(res, vcase)
+            res.count("class.verbose-logging")
+            res.count("class.verbose-logging.cli")
+            if vused is not None and vused != used:
+                # the same seed selecting other triples under --verbose: determinism is C18's subject -> tie
+                res.disagree("C15:entry-point-verbose", vcase, {"first": [u[:3] for u in vused][:2]}, {"first": [u[:3] for u in used][:2]})
         if len(res.oracle_failures) >= 20:
             break
     # hardening classes 10-13 on the call-site stream
@@ -823,8 +934,11 @@ def run(ctx, res):
         cl.append(("width-boundaries", {"n": nb, "budget": crng.choice([127, 128, 255, 256, 257, 300])}))
     for nb, bud in ((34, 4999), (34, 5001), (34, 5984), (34, 20000), (36, 5001), (36, 7140), (36, 7141), (40, 20000), (36, 6000)):
         cl.append(("budget-vs-default", {"n": nb, "budget": bud}))
-    for (cls, params) in cl:
-        classes_case(res, gd, cls, params, crng.randrange(2 ** 31))
+    for qi, (cls, params) in enumerate(cl):
+        with verbose_slice(qi % 3 == 0 or params.get("n") in (256, 257)):
+            classes_case(res, gd, cls, params, crng.randrange(2 ** 31))
+        if qi % 3 == 0:
+            res.count("class.verbose-logging")
         if len(res.oracle_failures) >= 20:
             break
     # fewer than three posterior samples: tie only
@@ -865,6 +979,14 @@ def run(ctx, res):
 
 
 def replay(ctx, case, res):
+    if case.get("kind") == "cli":
+        cli_case(res, case)          # passes --verbose itself
+        return
+    with verbose_slice(case.get("verbose")):
+        _replay(ctx, case, res)
+
+
+def _replay(ctx, case, res):
     from batchie.scoring import gaussian_dbal as gd
     fn = gd.get_combination_at_sorted_index
     kind = case.get("kind")
